@@ -106,6 +106,13 @@ def contracts():
                'quota_or_engine))' % (SZ % 'args[0][1]', SZ % 'args[0][1]',
                                       SZ % 'args[1][1]')],
       serves=('C08',))
+    # the yaql dict is a wrapper: what the quota sees of it (its own size)
+    # covers its storage, so a dict grown step by step is bounded like a list
+    c(U + 'FrozenDict.__sizeof__',
+      params=dict(self=obj('yaql.language.utils.FrozenDict', _d=TVal,
+                           _hash=TVal)),
+      ensures=['result >= %s' % (SZ % 'self._d')], serves=('C08',),
+      native=False)
     # ---- convert_output_data (C10 / C08): every container level is rebuilt
     # fresh, through the limiter, keys AND values / elements recursively ----
     for tl in (True, False):
@@ -298,7 +305,7 @@ def input_contracts():
     c('scalar', params=dict(obj=TVal),
       requires=['not isinstance(obj, "Sequence") or isinstance(obj, "str")',
                 'not isinstance(obj, "Mapping")',
-                'not isinstance(obj, "MutableSet")',
+                'not isinstance(obj, "Set")',
                 'not isinstance(obj, "Iterable") or isinstance(obj, "str")'],
       ensures=['result == obj', 'len(calls) == 0'])
     return cs
